@@ -18,19 +18,21 @@
 (***************************************************************************)
 EXTENDS Integers, Sequences, TLC, Json
 
-CONSTANTS Times, Incs, MovesToGo, Phases, TraceFile
+CONSTANTS Times, Incs, MovesToGo, Phases, Opps, TraceFile
 
 VARIABLES rem, inc, left, bad, l, game
 
 vars == <<rem, inc, left, bad, l, game>>
 
 \* ------------------------------------------------------------------ grid configuration
+\* Opps: what the OPPONENT's clock shows (the budget of the mover must not depend on it):
+\* 0 the same as the mover's, 1 much more time and increment, 2 almost nothing
 GridInit == /\ rem \in Times /\ inc \in Incs /\ left \in MovesToGo
-            /\ game \in Phases \X {0, 1}
+            /\ game \in Phases \X {0, 1} \X Opps
             /\ bad = FALSE /\ l = 0
 GridNext == UNCHANGED vars
 GridObs == PrintT(<<"GRID", ToJson([time |-> rem, inc |-> inc, movestogo |-> left,
-                                    phase |-> game[1], stm |-> game[2]])>>)
+                                    phase |-> game[1], stm |-> game[2], opp |-> game[3]])>>)
 
 \* ------------------------------------------------------------------ the game
 PlayMove(b) ==
@@ -46,12 +48,12 @@ BudgetFits == ~bad
 Trace == ndJsonDeserialize(TraceFile)
 Ev == Trace[l]
 
-TraceInit == rem = 0 /\ inc = 0 /\ left = 0 /\ bad = FALSE /\ l = 1 /\ game = <<0, 0>>
+TraceInit == rem = 0 /\ inc = 0 /\ left = 0 /\ bad = FALSE /\ l = 1 /\ game = <<0, 0, 0>>
 
 TStart == /\ l <= Len(Trace) /\ Ev.ev = "start"
           /\ rem' = Ev.time /\ inc' = Ev.inc
           /\ left' = IF Ev.movestogo = 0 THEN 15 ELSE Ev.movestogo
-          /\ bad' = FALSE /\ game' = <<Ev.phase, Ev.stm>>
+          /\ bad' = FALSE /\ game' = <<Ev.phase, Ev.stm, Ev.opp>>
           /\ l' = l + 1
 
 TMove == /\ l <= Len(Trace) /\ Ev.ev = "move"
